@@ -577,6 +577,27 @@ func (w *world) workers(r *rec) string {
 	type no struct{ n, o int }
 	var l []no
 	prev := math.MinInt
+	// in a concurrent case the instance a listed name belongs to is known for certain only when the name was only ever
+	// registered with one order: a registration that is in flight in another goroutine (a `go bw`, a registration from
+	// inside a handler) is listed by the daemon before the harness has recorded it as the latest instance of its name
+	cand := map[int]map[int]bool{}
+	for _, in := range w.snapshotInsts() {
+		if in.kind != "call" {
+			if cand[in.name] == nil {
+				cand[in.name] = map[int]bool{}
+			}
+			cand[in.name][in.order] = true
+		}
+	}
+	certain := true
+	for _, s := range names {
+		if n, err := strconv.Atoi(s); err == nil && len(cand[n]) > 1 && !w.seq {
+			certain = false // (a sequential case is quiescent here: the latest instance is the listed one)
+		}
+	}
+	if !certain {
+		r.Count("running-list-sorted:not-judged(in-flight-registration)")
+	}
 	for _, s := range names {
 		n, err := strconv.Atoi(s)
 		if err != nil {
@@ -586,7 +607,7 @@ func (w *world) workers(r *rec) string {
 		if in == nil {
 			return "unknown-name"
 		}
-		if in.order < prev {
+		if in.order < prev && certain {
 			r.Fail("running-list-sorted", fmt.Sprintf("GetRunningBackgroundWorkers not ascending by order: %v", names),
 				map[string]string{"oracle": "sorted", "api": "GetRunningBackgroundWorkers"})
 		}
